@@ -11,8 +11,16 @@ for f in sorted(glob.glob("/verif/mutants/%s*.diff" % pat)):
     kind = name.split("_")[0]
     props = REL.get(kind)
     if kind == "revert":
-        # the property the fix was made for + close relatives
-        props = ["C02", "C08", "C09", "C14", "C16", "C05", "C15"]
+        # the property the fix was made for
+        owner = {"string_length_error": ["C16"], "parenthesise": ["C14", "C09"], "float_Arbitrary": ["C09"], "string_Arbitrary": ["C09"], "refuse_integer_Arbitrary": ["C09", "C08"],
+                 "refuse_equal_bounds": ["C08"], "generated_serde": ["C08"], "derive_Into": ["C08"], "derive_Arbitrary": ["C08"], "a_bound_written": ["C02"], "refuse_a_repeated": ["C02"]}
+        props = next((v for k, v in owner.items() if k in name), ["C02", "C08", "C09", "C14", "C16"])
+    if kind == "own":
+        owner = name.split("_")[1]
+        props = sorted(set([owner, "C01", "C05"]))
+    if name in results and results[name].get("baseline_exit") is not None and not os.environ.get("RERUN"):
+        print(name, "already done", results[name]["caught_by"])
+        continue
     out = "/tmp/mut_%s.json" % name
     env = dict(os.environ, SEEDTEST_OUT=out)
     p = subprocess.run(["python3", "/verif/tools/seedtest.py", f, "--baseline"] + props, capture_output=True, text=True, env=env)
